@@ -269,4 +269,5 @@ def run(chk):
 
 def safety_net(chk):
     from .c09 import absolute_battery
-    return sqrt_battery(chk.seed) or absolute_battery(chk.seed)
+    from sym import ptreplay
+    return sqrt_battery(chk.seed) or absolute_battery(chk.seed) or ptreplay.battery_value_history(chk.seed, "element")
